@@ -14,7 +14,7 @@ use std::time::Duration;
 
 pub struct C19;
 
-const LIMIT: Duration = Duration::from_secs(5);
+const LIMIT: Duration = Duration::from_secs(20);
 
 /// fault name -> shell script body of the `rustfmt` stub (None = no stub: PATH holds an empty directory only)
 pub const FAULTS: [(&str, Option<&str>); 12] = [
@@ -120,7 +120,7 @@ impl Property for C19 {
         "C19"
     }
     fn rule(&self) -> &'static str {
-        "Shaders whose output is below and above the 64 KiB pipe buffer x formatter situations {real rustfmt from PATH, absent, exit 1 after reading, exit 1 / exit 0 without reading, stdin closed early, killed by SIGKILL before/after reading, prints nothing, prints invalid UTF-8, slow identity formatter}, realised as shell stubs named `rustfmt` in a temp dir placed first in PATH (sequentially, PATH restored); oracle = the same call with rustfmt: false: the rustfmt: true call must return Ok(text) within 5 s, without panic, with the same token sequence (modulo trailing commas before closing delimiters)."
+        "Shaders whose output is below and above the 64 KiB pipe buffer x formatter situations {real rustfmt from PATH, absent, exit 1 after reading, exit 1 / exit 0 without reading, stdin closed early, killed by SIGKILL before/after reading, prints nothing, prints invalid UTF-8, slow identity formatter}, realised as shell stubs named `rustfmt` in a temp dir placed first in PATH (sequentially, PATH restored); oracle = the same call with rustfmt: false: the rustfmt: true call must return Ok(text) within 20 s, without panic, with the same token sequence (modulo trailing commas before closing delimiters)."
     }
 
     fn cases(&self, seed: u64, tier: Tier) -> Vec<Case> {
@@ -180,7 +180,7 @@ impl Property for C19 {
         let mut o = Outcome::default();
         let what = format!("rustfmt: true with formatter `{fault}` ({} bytes of output)", reference.len());
         match got {
-            None => o.fail(case, what, "Ok(same program) within 5 s", "no result after 5 s (hang)"),
+            None => o.fail(case, what, "Ok(same program) within 20 s", "no result after 20 s (hang)"),
             Some((LibResult::Panic(m), _)) => o.fail(case, what, "Ok(same program), no panic", format!("panic: {m}")),
             Some((LibResult::Err(k, d), _)) => o.fail(case, what, "Ok(same program)", format!("Err({k:?}: {d})")),
             Some((LibResult::Ok(text), _)) => match canon_text(&text) {
